@@ -14,6 +14,7 @@ RULES = {
     "C11.R6": "the dynamic weight path stays in the autograd graph: no no_grad / set_grad_enabled / inference_mode context and no .detach() / .data around the quantization of self.weight in qweight, forward or qforward",
     "C11.R9": "the twin's parameters keep their own requires_grad flags: from_module copies weight and bias under no_grad and does nothing else to them (rule C08.R4 re-checked: a blanket requires_grad_ makes the bias follow the weight's flag)",
     "C11.R10": "what a forward saved for its backward is not rewritten: the activation-scale buffers, which the modules hand as they are to the activations they quantize (and the linear function saves), are replaced by calibration, never written in place",
+    "C11.R15": "the linear function saves for its backward only what a needed gradient reads: a tensor read under a single needs_input_grad[k] test is saved under the same test (a frozen module then neither pins nor version-checks its input)",
     "C11.R14": "the scale (and zero-point) quantize_weight hands to the quantizers are evaluated outside the graph of the weights (under torch.no_grad(), or detached): the quantizers give them no gradient, and a graph that saves the weight makes a weight update between a forward and its backward a version-counter error the float module does not raise",
     "C11.R13": "(= C05.R18 (a), value handlers) the result of a handler that is not a view owns its scale and its payload: a tensor saved for a backward is never rewritten through a result that shares its inner tensors (autograd's version counters do not see them)",
     "C11.R12": "a sum evaluated block by block covers every row: a loop over `range(n // k)` that addresses blocks `[i * k : (i + 1) * k]` is followed by the handling of the `n % k` remaining rows (or iterates over ceil-divided / stepped ranges) - in the functions the linear backward reaches and in the kernels",
@@ -163,9 +164,17 @@ def linear_backward(chk):
     ctxn, g = positional_params(bwd)[:2]
     # saved tensors order
     saved = None
+    cond_saved = {}  # name -> index k: saved only when needs_input_grad[k]
     for n in ast.walk(fwd):
         if isinstance(n, ast.Call) and U(n.func) == f"{positional_params(fwd)[0]}.save_for_backward":
-            saved = [U(a) for a in n.args]
+            saved = []
+            for a in n.args:
+                # `x if ctx.needs_input_grad[k] else None`: saved only when the k-th gradient is needed
+                if isinstance(a, ast.IfExp) and isinstance(a.orelse, ast.Constant) and a.orelse.value is None and isinstance(a.test, ast.Subscript) and U(a.test.value) == f"{positional_params(fwd)[0]}.needs_input_grad" and isinstance(a.test.slice, ast.Constant):
+                    cond_saved[U(a.body)] = a.test.slice.value
+                    saved.append(U(a.body))
+                else:
+                    saved.append(U(a))
     if saved is None:
         chk.unknown("C11.R2", site, "save_for_backward not found")
         return
@@ -173,6 +182,37 @@ def linear_backward(chk):
     for n in ast.walk(bwd):
         if isinstance(n, ast.Assign) and U(n.value) == f"{ctxn}.saved_tensors" and isinstance(n.targets[0], ast.Tuple):
             unpack = [U(x) for x in n.targets[0].elts]
+    # a tensor saved under needs_input_grad[k] is None otherwise: the backward may read it only under the same test
+    for nm, k in cond_saved.items():
+        guarded = set()
+        for st in ast.walk(bwd):
+            if isinstance(st, ast.If) and U(st.test) == f"{ctxn}.needs_input_grad[{k}]":
+                guarded |= {id(x) for b_ in st.body for x in ast.walk(b_)}
+        uses = [x for x in ast.walk(bwd) if isinstance(x, ast.Name) and x.id == nm and isinstance(x.ctx, ast.Load)]
+        free = [x for x in uses if id(x) not in guarded]
+        chk.require("C11.R2", site, not free, f"`{nm}` is saved only when needs_input_grad[{k}]: the backward reads it under that test only ({len(uses)} read(s), {len(free)} outside)", "QTensorLinear.backward", "conditionally saved tensor read unconditionally",
+                    f"a backward that does not need gradient {k}: `{nm}` is None, AttributeError / TypeError")
+    # C11.R15: a tensor that the backward reads for ONE gradient only is saved only when that gradient is needed - saved unconditionally, a frozen
+    # module pins (and version-checks) an input it will never read
+    for nm in saved or []:
+        if nm in cond_saved:
+            chk.ok("C11.R15", site, f"`{nm}` is saved only when needs_input_grad[{cond_saved[nm]}]")
+            continue
+        uses = [x for x in ast.walk(bwd) if isinstance(x, ast.Name) and x.id == nm and isinstance(x.ctx, ast.Load)]
+        ks = set()
+        outside = False
+        for x in uses:
+            k_ = None
+            for st in ast.walk(bwd):
+                if isinstance(st, ast.If) and U(st.test).startswith(f"{ctxn}.needs_input_grad[") and any(x is y for b_ in st.body for y in ast.walk(b_)):
+                    k_ = U(st.test)
+            if k_ is None:
+                outside = True
+            else:
+                ks.add(k_)
+        only_one = bool(uses) and not outside and len(ks) == 1
+        chk.require("C11.R15", site, not only_one, f"`{nm}` is saved unconditionally and the backward reads it {'only under ' + sorted(ks)[0] if only_one else 'for more than one purpose'}", "QTensorLinear.forward", "tensor saved for a gradient that may not be needed",
+                    "h = x * 1; y = frozen_qlinear(h); h.mul_(2); y.backward(): 'modified by an inplace operation' although no gradient reads h - Linear(...).requires_grad_(False) returns g @ W")
     chk.require("C11.R2", site, unpack == saved and saved == fparams[:2], f"saved tensors {saved} are unpacked in the order saved ({unpack})", "QTensorLinear.backward", "saved tensor order", "any backward: input and weight are swapped in the gradient formulas")
     ranks = (1, 2, 3) if chk.tier == "quick" else (1, 2, 3, 4, 5)
     n = 0
